@@ -143,11 +143,17 @@ class HTTPFile(io.IOBase):
 
     def read(self, size=-1, /):
         """Cache-supported read operation (file object)"""
-        data = self.read_range_cached(self._pos, self._pos + size)
-        if size > 0:
-            self._pos += size
+        if size is None or size < 0:
+            # read everything until the end of the resource
+            stop = self.length
         else:
-            self._pos = self.length
+            # never read beyond the end of the resource
+            stop = min(self._pos + size, self.length)
+        if stop > self._pos:
+            data = self.read_range_cached(self._pos, stop)
+            self._pos = stop
+        else:
+            data = b""
         return data
 
     def read_range_cached(self, start, stop):
